@@ -125,4 +125,19 @@ theorem two_structure_chunk_refines_the_model (cfg : ChunkCfg) (ops : List Lib.O
 theorem map_count_never_exceeds_max (cfg : ChunkCfg) (ops : List Lib.Op) :
     (Lib.finalState (Lib.LChunk.step cfg) Lib.LChunk.empty ops).count ≤ cfg.maxNumItems := Lib.lib_count_le_max cfg ops
 
+/-- the tie by translation for `NumBytes`: the two statements of the CURRENT source that change a chunk's byte counter are
+    translated on every run and are the model's — an insertion adds the declared size; every removal (explicit, or one item
+    of an eviction) subtracts the item's size and clamps at zero -/
+theorem source_byte_counter_updates_are_the_models :
+    (∀ b size : Int, b + size = Gen.chunkBytesAfterAdd (chunk_numBytes := b) (item_size := size)) ∧
+    (∀ (c : Immunity.Chunk) (k : Bytes) (it : Immunity.Item), c.get k = some it →
+        (c.removeItem k).1.numBytes = Gen.chunkBytesAfterRemove (chunk_numBytes := c.numBytes) (item_size := it.size)) ∧
+    (∀ (b : Int) (removed : List Immunity.Item),
+        Immunity.subBytes b removed =
+          removed.foldl (fun b it => Gen.chunkBytesAfterRemove (chunk_numBytes := b) (item_size := it.size)) b) ∧
+    Gen.chunkBytesAfterAdd_leaves = ["chunk.numBytes : Int", "item.size : Int"] ∧
+    Gen.chunkBytesAfterRemove_leaves = ["chunk.numBytes : Int", "item.size : Int"] :=
+  ⟨GenProofs.chunkBytes_add, GenProofs.chunkBytes_removeItem, GenProofs.subBytes_eq_source,
+   GenProofs.chunkBytes_leaves.1, GenProofs.chunkBytes_leaves.2⟩
+
 end SV.Props.C13
